@@ -25,6 +25,14 @@ CHECKS = {
    technique="Published holiday rules transcribed into NamedCal.tla; TLC checks rule-level theorems (fed = nyc minus Good Friday, no spill across years) for 1970-2200 and validates the real tables year by year (14 names x 231 years) and the nine shipped fixing histories as publication-by-publication histories (Trace_Fixings)",
    text="Exhaustive over the data: every weekday of 1970-2200 for every built-in name is compared by TLC with the published rules (exactly for 7 calendars, one-sided for 5, empty for all/bus), every documented name is resolved directly and through NamedCal, and each fixing history is replayed as a behaviour of the calendar.",
    note="The rule transcription in NamedCal.tla (from named/*_script.py and the RULES constants) is the trusted oracle; weekend entries of the tables are not judged (the property is about weekdays)."),
+ "C09": dict(engine="fx", cat="model_checking", design="5/C09",
+   technique="Exact (exponent-vector) TLA+ model of FXRates::try_new and one-recursion-level-per-action triangulation, model-checked by TLC for every quote sequence/base/settlement configuration against the signed tree path (safety + termination under fairness); every configuration replayed into the real FXRates with seeded rates and random 2-12 currency trees recorded; TLC validates outcome class, quoted pairs bit-exactly, diagonal, every cross against the path product",
+   text="TLC exhausts all quote sequences over 4 (thorough: 5) currencies incl. under/over-specified, cyclic, duplicated and reversed sets and proves the algorithm equals the declarative path vector; the same configurations and larger random trees go through the real crate and every rate is judged by TLC, which also re-checks the declarative layer on each validated market.",
+   note="Values to 1e-9 relative in IEEE double arithmetic recomputed by TLC; markets above 12 currencies not explored; TLC / FP.java / harness recording trusted."),
+ "C10": dict(engine="fx", cat="model_checking", design="5/C10",
+   technique="TLA+ history model (Update with refused / accepted arms, SetOrder, rebuild through try_new) model-checked by TLC (exponents never change, refused updates change nothing, index stable); recorded histories of real FXRates objects validated step by step by TLC incl. first- and second-order sensitivities by expected variable name derived from the path exponents",
+   text="Every step of every recorded history (up to 12 operations on 2-12 currency markets, float and dual quotes) is an action of the specification; values, gradients by name fx_<pair> (or the quote's own variables) and Hessians are recomputed by TLC from the spec state built from the latest quotes.",
+   note="Sensitivities to 1e-9 of the sum of absolute terms; Hessians on all pairs up to 4 currencies and a probe subset above; order reset by update is modelled, not judged."),
 }
 
 PENDING = {
@@ -52,6 +60,8 @@ ENGINES = [
       serves_properties=["C04", "C05", "C08"], kind_free_text="TLA+ model checked by TLC + trace validation of the real crate's DateRoll calls"),
  dict(name="named", path="spec/NamedCal.tla spec/MC_NamedCal.tla spec/Trace_NamedCal.tla spec/Trace_Fixings.tla harness/src/named.rs lib/checks_named.py",
       serves_properties=["C06", "C07"], kind_free_text="TLA+ grammar/rule model checked by TLC + validation of recorded observations and fixing histories"),
+ dict(name="fx", path="spec/FXRates.tla spec/MC_FXRates.tla spec/Trace_FX.tla harness/src/fx.rs lib/checks_fx.py",
+      serves_properties=["C09", "C10"], kind_free_text="exact TLA+ state machine of the FX triangulation checked by TLC + history validation of real FXRates objects"),
 ]
 
 
